@@ -29,7 +29,8 @@ CHECKS["C09"] = (
     "reference model in every generated successor, read-only queries checked as self-loops. Reports states, transitions, "
     "depth and frontier per class and pass. The search starts from the empty graph and from fixed non-initial roots "
     "(role-carrying bonds, a four-atom skeleton with descriptors, with stereo changes); long deterministic histories on one "
-    "live object complement the depth bound.",
+    "live object complement the depth bound; a second identifier universe (identifiers whose Python hashes collide with each other, "
+    "with the relabelling target and with the never-added identifiers) is searched two levels less deep.",
     "Trusted: the reference model (smgverif/model/refgraph.py) and the well-formedness table of DESIGN.md 4.3; bounds: "
     "3-4 atom identifiers, elements {C,H}, depth per class as reported in the evidence.",
     "DESIGN.md 3, 5/C09")
@@ -103,7 +104,8 @@ CHECKS["C06"] = (
 CHECKS["C08"] = (
     ENUM + " (all reactant/product/TS triples over a common atom set)",
     "All triples of bond sets on n<=3 atoms (n=4 with bounded bond count) with TS absent or any superset, and all 4^3 "
-    "combinations of {none, isomer 1, isomer 2, other class} on one atom centre and one bond in R, P and TS: reactant()/product() "
+    "combinations of {none, isomer 1, isomer 2, other class} on one atom centre and one bond in R, P and TS (the bond unchanged, "
+    "formed or broken): reactant()/product() "
     "reproduce R/P, formed/broken/fleeting bonds are the set differences, reverse_reaction swaps sides incl. stereo, keeps "
     "fleeting bonds/stereo and is an involution.",
     "Trusted: reference model; the stereo of the reconstructed TS and non-role attributes are not compared.", "DESIGN.md 5/C08")
@@ -111,7 +113,8 @@ CHECKS["C10"] = (
     ENUM + " (sources x derivations x every single follow-up edit x both sides; snapshot of the untouched side)",
     "For each source spec of all classes with attributes/descriptors/changes, each derivation (copy, copy-construct incl. "
     "cross-class, relabel copy, subgraph, compose, enantiomer, reverse_reaction, reactant, product, JSON) and each single edit "
-    "from the full mutator menu applied to the derived graph and to the source, the other graph's snapshot must not change.",
+    "from the full mutator menu (incl. in-place relabelling and the in-place change of a list / nested dict stored as attribute "
+    "value) applied to the derived graph and to the source, the other graph's snapshot must not change.",
     "Trusted: snapshot of private containers; single follow-up edits only.", "DESIGN.md 5/C10")
 CHECKS["C11"] = (
     ENUM + " (specs x all injective total/partial mappings x copy/in-place; differential follow-ups against a fresh build)",
